@@ -101,3 +101,5 @@
 ; take / drop inside a block of zeros (List.replicate lemmas)
 (assert (forall ((n Int) (k Int)) (! (=> (and (<= 0 k) (<= k n)) (= (take (zeros n) k) (zeros k))) :pattern ((take (zeros n) k)))))
 (assert (forall ((n Int) (k Int)) (! (=> (and (<= 0 k) (<= k n)) (= (drop (zeros n) k) (zeros (- n k)))) :pattern ((drop (zeros n) k)))))
+; a single zero octet has one normal form
+(assert (= (zeros 1) (u8 0)))
